@@ -24,7 +24,8 @@ LEVEL = "fault_enumeration"
 
 POINTS = ["unpickle-args", "worker.after_get", "task-start", "mid-task", "worker.after_run", "pickle-result",
           "queue.in_send", "worker.after_send"]
-ACTIONS = ["SIGKILL", "SIGTERM", "SIGSEGV", "exit0", "exit1"]
+# SIGRTMIN+1: a real-time signal without a member in signal.Signals (the exit code has no symbolic name)
+ACTIONS = ["SIGKILL", "SIGTERM", "SIGSEGV", "exit0", "exit1", "SIGRTMIN+1", "SIGABRT"]
 STARTUP_POINTS = ["executor.reuse.before_check", "executor.resize.enter", "executor.resize.before_shrink_wait",
                   "executor.resize.after_adjust"]
 CALL_WALL_LIMIT = 20.0
@@ -36,7 +37,7 @@ def scenarios(tier, seed):
     quick = tier == "quick"
     # [fault, ok]: every point x action x victims, n_jobs=2
     for point, action, victims in itertools.product(POINTS, ACTIONS, ("first", "all")):
-        if quick and action in ("exit0", "SIGTERM") and victims == "all":
+        if quick and action in ("exit0", "SIGTERM", "SIGABRT", "SIGRTMIN+1") and victims == "all":
             continue
         out.append(dict(n_jobs=2, managed=False, return_as="list", hist="fault,ok", point=point, action=action, victims=victims))
     # variants: with-block, generator, n_jobs=3, repeated faults, idle kills
@@ -45,7 +46,7 @@ def scenarios(tier, seed):
             out.append(dict(n_jobs=nj, managed=managed, return_as=ra, hist="fault,ok", point=point, action="SIGKILL", victims="first"))
         out.append(dict(n_jobs=2, managed=True, return_as="list", hist="fault,fault,ok", point=point, action="SIGKILL", victims="first"))
         out.append(dict(n_jobs=2, managed=False, return_as="list", hist="ok,fault,ok,ok", point=point, action="SIGSEGV", victims="first"))
-    for action, victims, managed in itertools.product(("SIGKILL", "SIGSEGV") if quick else ACTIONS[:3], ("first", "all"), (False, True)):
+    for action, victims, managed in itertools.product(("SIGKILL", "SIGSEGV", "SIGRTMIN+1") if quick else ACTIONS[:3] + ["SIGRTMIN+1", "SIGABRT"], ("first", "all"), (False, True)):
         out.append(dict(n_jobs=2, managed=managed, return_as="list", hist="ok,idle,ok,ok", point="idle", action=action, victims=victims))
         if not quick:
             out.append(dict(n_jobs=3, managed=managed, return_as="generator", hist="ok,idle,ok,ok", point="idle", action=action, victims=victims))
@@ -62,7 +63,8 @@ def scenarios(tier, seed):
         from ..parcommon import rotate_slice
         must = startup + [s for s in out if s["victims"] == "first" and s["hist"] in ("fault,ok", "ok,idle,ok,ok")
                 and s["n_jobs"] == 2 and not s["managed"] and s["return_as"] == "list"
-                and (s["action"] == "SIGKILL" or (s["action"] in ("exit0", "exit1") and s["point"] in ("task-start", "mid-task", "worker.after_run")))]
+                and (s["action"] == "SIGKILL" or (s["action"] in ("exit0", "exit1") and s["point"] in ("task-start", "mid-task", "worker.after_run"))
+                     or (s["action"] in ("SIGRTMIN+1", "SIGABRT") and s["point"] in ("mid-task", "idle")))]
         rest = [s for s in out if s not in must and s not in startup]
         out = must + rotate_slice(rest, seed, 3)
     else:
